@@ -486,7 +486,8 @@ class SigmaFieldReferenceModifier(SigmaValueModifier[SigmaString, SigmaFieldRefe
     def modify(self, val: SigmaString) -> SigmaFieldReference:
         if val.contains_special():
             raise SigmaValueError("Field references must not contain wildcards", source=self.source)
-        return SigmaFieldReference(val.to_plain())
+        # The referenced field name is the string content, not its escaped plain form.
+        return SigmaFieldReference(val.to_plain(regex=True))
 
 
 class SigmaExistsModifier(SigmaValueModifier[SigmaBool, SigmaExists]):
